@@ -133,6 +133,23 @@ class Hoister(ast.NodeTransformer):
         return node
 
 
+class CmpSwapper(ast.NodeTransformer):
+    """`a == b` -> `b == a`, `a != b` -> `b != a`, `a < b` -> `b > a`, `a <= b` -> `b >= a` (and vice versa) for single comparisons
+    whose operands have no side effects in this package (names, attributes, constants, subscripts, calls are all evaluated either way;
+    only the order of two evaluations changes, which is unobservable for the pure accessors used here)."""
+    SWAP = {ast.Lt: ast.Gt, ast.Gt: ast.Lt, ast.LtE: ast.GtE, ast.GtE: ast.LtE, ast.Eq: ast.Eq, ast.NotEq: ast.NotEq}
+
+    def _pure(self, e):
+        return not any(isinstance(x, (ast.Call, ast.Yield, ast.Await, ast.NamedExpr)) for x in ast.walk(e))
+
+    def visit_Compare(self, node):
+        self.generic_visit(node)
+        if len(node.ops) == 1 and type(node.ops[0]) in self.SWAP and self._pure(node.left) and self._pure(node.comparators[0]):
+            node.left, node.comparators[0] = node.comparators[0], node.left
+            node.ops = [self.SWAP[type(node.ops[0])]()]
+        return node
+
+
 def rewrite(d, mode):
     for f in sorted(os.listdir(os.path.join(d, 'disk_objectstore'))):
         if not f.endswith('.py'):
@@ -144,6 +161,9 @@ def rewrite(d, mode):
             ast.fix_missing_locations(tree)
         elif mode == 'hoist':
             tree = Hoister().visit(tree)
+            ast.fix_missing_locations(tree)
+        elif mode == 'cmpswap':
+            tree = CmpSwapper().visit(tree)
             ast.fix_missing_locations(tree)
         elif mode == 'flip':
             tree = Flipper().visit(tree)
